@@ -77,4 +77,25 @@ let do_parse toks =
     end
   | _ -> "bad-case"
 
+(* C02: the reference reader (extracted from coq/Spec/C02.v) on a text *)
+let rec dump_node b (C02.Node (kw, has, arg, subs)) =
+  Buffer.add_string b (Printf.sprintf "(%s,%d,%s;" (hex_of_runes kw) (if has then 1 else 0) (hex_of_runes arg));
+  L.iter (dump_node b) subs;
+  Buffer.add_char b ')'
+
+let do_specparse toks =
+  match toks with
+  | [h] ->
+    (match C02.spec_parse (runes_of_hex h) with
+     | C02.Reject -> "reject"
+     | C02.Ambiguous -> "ambiguous"
+     | C02.Accept f ->
+       let b = Buffer.create 64 in
+       Buffer.add_string b "accept ";
+       if f = [] then Buffer.add_char b '-';
+       L.iter (dump_node b) f;
+       Buffer.contents b)
+  | _ -> "bad-case"
+
 let () = register "parse" do_parse
+let () = register "specparse" do_specparse
